@@ -18,21 +18,20 @@ Proof. intros k l. destruct k; reflexivity. Qed.
 
 (* ---------------------------------------------------------------- Err/None: the same value, at once *)
 Lemma qmark_err_l : forall ls k okp d i, (d < List.length ls)%nat ->
-  existsb is_qstmt (firstn d ls) = false ->
   m_chain k okp (i + d) i ls =
     (enters i (S d), match nth_error ls d with Some l => inl (encode (fail_cval k l)) | None => inr XUnmodelled end).
 Proof.
-  induction ls as [|l rest IH]; intros k okp d i Hd Hq; simpl in Hd; [lia|].
+  induction ls as [|l rest IH]; intros k okp d i Hd; simpl in Hd; [lia|].
   destruct d as [|d'].
   - simpl. replace (i + 0)%nat with i by lia. rewrite Nat.eqb_refl. reflexivity.
   - cbn [m_chain]. assert (Hne : Nat.eqb (i + S d') i = false) by (apply Nat.eqb_neq; lia).
-    rewrite Hne. simpl in Hq. apply orb_false_iff in Hq. destruct Hq as [Hl Hq].
+    rewrite Hne.
     destruct rest as [|l2 rest2]; [simpl in Hd; lia|].
     replace (i + S d')%nat with (S i + d')%nat by lia.
-    rewrite (IH k okp d' (S i)); [|simpl in *; lia|exact Hq].
+    rewrite (IH k okp d' (S i)); [|simpl in *; lia].
     cbn [nth_error]. destruct (nth_error (l2 :: rest2) d') as [lf|] eqn:En.
-    + rewrite qmark_fail. unfold is_qstmt in Hl. unfold enters. cbn [seq map].
-      destruct (l_ctx l); try discriminate; reflexivity.
+    + rewrite qmark_fail. unfold enters. cbn [seq map].
+      destruct (l_ctx l); reflexivity.
     + apply nth_error_None in En. simpl in *. lia.
 Qed.
 
@@ -126,103 +125,68 @@ Proof.
   assert (Hne : ls <> []) by (destruct ls; [simpl in Hd; lia|discriminate]).
   destruct (ok_events_shape ls k z sel0 i Hne Hq Hsel) as (tail & Ht).
   rewrite Ht. rewrite (qmark_err_l ls k (PInt z) d i Hd).
-  - simpl fst. replace (List.length ls) with (S d + (List.length ls - S d))%nat by lia.
-    rewrite enters_app. rewrite <- app_assoc. eexists. reflexivity.
-  - apply existsb_firstn_all with (n := d) in Hq. exact Hq.
+  simpl fst. replace (List.length ls) with (S d + (List.length ls - S d))%nat by lia.
+  rewrite enters_app. rewrite <- app_assoc. eexists. reflexivity.
 Qed.
 
 (* ---------------------------------------------------------------- refinement on the conforming fragment *)
-Definition shape (k : rkind) (z : Z) (sel i : nat) (ls : list link) (c : cval) : Prop :=
-  (c = mkC (v_ok k) (PInt z) \/ c = mkC (v_ok k) (PInt 100)) \/
-  (exists l, In l ls /\ c = fail_cval k l /\ (i <= sel)%nat /\ (sel < i + List.length ls)%nat).
+Definition shape (k : rkind) (z : Z) (ls : list link) (c : cval) : Prop :=
+  (c = mkC (v_ok k) (PInt z) \/ c = mkC (v_ok k) (PInt 100)) \/ (exists l, In l ls /\ c = fail_cval k l).
 
 Lemma chain_refines : forall ls k z sel i, ls <> [] ->
-  (forall d, (d < List.length ls)%nat -> sel = (i + d)%nat -> existsb is_qstmt (firstn d ls) = false) ->
   exists evs c, s_chain k (PInt z) sel i ls = (evs, inl c) /\
-                m_chain k (PInt z) sel i ls = (evs, inl (encode c)) /\ shape k z sel i ls c.
+                m_chain k (PInt z) sel i ls = (evs, inl (encode c)) /\ shape k z ls c.
 Proof.
-  induction ls as [|l rest IH]; intros k z sel i Hne Hc; [congruence|].
+  induction ls as [|l rest IH]; intros k z sel i Hne; [congruence|].
   cbn [m_chain s_chain]. destruct (Nat.eqb sel i) eqn:Ei.
-  - apply Nat.eqb_eq in Ei. exists [EEnter i], (fail_cval k l). repeat split. right.
-    exists l. repeat split; [left; reflexivity|lia|simpl; lia].
-  - apply Nat.eqb_neq in Ei. destruct rest as [|l2 rest2].
+  - exists [EEnter i], (fail_cval k l). repeat split. right. exists l. split; [left; reflexivity|reflexivity].
+  - destruct rest as [|l2 rest2].
     + exists [EEnter i], (mkC (v_ok k) (PInt z)). repeat split. left. left. reflexivity.
-    + destruct (IH k z sel (S i)) as (evs & c & Hs & Hm & Hsh); [discriminate| |].
-      { intros d Hd Hsd. specialize (Hc (S d)). simpl in Hc.
-        assert (H : is_qstmt l || existsb is_qstmt (firstn d (l2 :: rest2)) = false)
-          by (apply Hc; [simpl in *; lia|lia]).
-        apply orb_false_iff in H. destruct H as [_ H]. exact H. }
-      rewrite Hs, Hm. destruct Hsh as [[Hok|Hok]|(lf & Hin & Hf & Hlo & Hhi)].
-      * (* the callee returned Ok z *)
-        subst c. rewrite qmark_ok_int. simpl c_variant. rewrite str_eqb_refl.
+    + destruct (IH k z sel (S i)) as (evs & c & Hs & Hm & Hsh); [discriminate|].
+      rewrite Hs, Hm. destruct Hsh as [[Hok|Hok]|(lf & Hin & Hf)].
+      * subst c. rewrite qmark_ok_int. simpl c_variant. rewrite str_eqb_refl.
         destruct (l_ctx l).
         -- eexists; eexists; repeat split. left; left; reflexivity.
         -- eexists; eexists; repeat split. left; left; reflexivity.
         -- eexists; eexists; repeat split. left; left; reflexivity.
         -- eexists; eexists; repeat split. left; left; reflexivity.
         -- eexists; eexists; repeat split. left; right; reflexivity.
-      * (* the callee returned Ok 100 (a link below discarded the value) *)
-        subst c. rewrite qmark_ok_int. simpl c_variant. rewrite str_eqb_refl.
+      * subst c. rewrite qmark_ok_int. simpl c_variant. rewrite str_eqb_refl.
         destruct (l_ctx l).
         -- eexists; eexists; repeat split. left; right; reflexivity.
         -- eexists; eexists; repeat split. left; right; reflexivity.
         -- eexists; eexists; repeat split. left; right; reflexivity.
         -- eexists; eexists; repeat split. left; right; reflexivity.
         -- eexists; eexists; repeat split. left; right; reflexivity.
-      * (* a link below failed: this link must not discard *)
+      * (* a link below failed: every context lets the Err/None through *)
         subst c. rewrite qmark_fail. rewrite fail_not_ok.
-        assert (Hl : is_qstmt l = false).
-        { specialize (Hc (sel - i)%nat). simpl in Hc.
-          assert (H : existsb is_qstmt (firstn (sel - i) (l :: l2 :: rest2)) = false)
-            by (apply Hc; simpl in *; lia).
-          destruct (sel - i)%nat eqn:E; [lia|]. simpl in H. apply orb_false_iff in H. tauto. }
-        unfold is_qstmt in Hl.
         exists (EEnter i :: evs), (fail_cval k lf). split; [reflexivity|]. split.
-        -- destruct (l_ctx l); try discriminate; reflexivity.
-        -- right. exists lf. repeat split; [right; exact Hin|lia|simpl in *; lia].
-Qed.
-
-Lemma firstn_all_ge : forall (A : Type) (l : list A) n, (List.length l <= n)%nat -> firstn n l = l.
-Proof. intros A l. induction l; intros n H; destruct n; simpl in *; try reflexivity; try lia. f_equal. apply IHl. lia. Qed.
-
-Lemma existsb_firstn_mono : forall (A : Type) (f : A -> bool) l n m, (n <= m)%nat ->
-  existsb f (firstn m l) = false -> existsb f (firstn n l) = false.
-Proof.
-  intros A f l. induction l as [|a l IH]; intros n m Hnm H; destruct n, m; simpl in *; try reflexivity; try lia.
-  apply orb_false_iff in H. destruct H as [H1 H2]. rewrite H1. simpl. eapply IH; [|exact H2]. lia.
+        -- destruct (l_ctx l); reflexivity.
+        -- right. exists lf. split; [right; exact Hin|reflexivity].
 Qed.
 
 Lemma chain_refines_run : forall p, safe_q p = true -> m_run_q p = s_run_q p.
 Proof.
   intros [k ls okp sel] Hs. unfold safe_q in Hs. simpl in Hs.
-  apply andb_true_iff in Hs. destruct Hs as [Hs Hsel].
   apply andb_true_iff in Hs. destruct Hs as [Hs Hgood].
   apply andb_true_iff in Hs. destruct Hs as [Hne Hok].
   destruct okp as [|z|s]; try discriminate.
   assert (Hne' : ls <> []) by (destruct ls; [discriminate|discriminate]).
   destruct (chain_refines ls k z sel 1 Hne') as (evs & c & Hsc & Hmc & Hsh).
-  { intros d Hd Hsd. apply orb_true_iff in Hsel. destruct Hsel as [Hsel|Hsel].
-    - apply orb_true_iff in Hsel. destruct Hsel as [Hsel|Hsel].
-      + apply Nat.eqb_eq in Hsel. lia.
-      + apply Nat.ltb_lt in Hsel. lia.
-    - apply negb_true_iff in Hsel. replace (sel - 1)%nat with d in Hsel by lia. exact Hsel. }
   unfold m_run_q, s_run_q. simpl. rewrite Hsc, Hmc. rewrite variant_encode.
   assert (Hg : good_for_match (c_payload c) = true).
-  { destruct Hsh as [[->| ->]|(lf & Hin & -> & _)]; simpl.
-    - exact Hok.
-    - reflexivity.
-    - rewrite forallb_forall in Hgood. specialize (Hgood lf Hin).
-      destruct k; simpl; [|reflexivity]. unfold good_payload in Hgood.
-      destruct (l_err lf); simpl; [reflexivity|exact Hgood|exact Hgood]. }
+  { destruct Hsh as [[->| ->]|(lf & Hin & ->)]; simpl; try reflexivity.
+    rewrite forallb_forall in Hgood. specialize (Hgood lf Hin).
+    destruct k; simpl; [|reflexivity]. unfold good_payload in Hgood.
+    destruct (l_err lf); simpl; [reflexivity|reflexivity|exact Hgood]. }
   rewrite (match_refines_l c _ Hg). reflexivity.
 Qed.
 
 (* ---------------------------------------------------------------- the defects, as witnesses *)
-(* f2(x)?; as a statement: the Err of the failing callee is swallowed, the caller goes on and returns Ok *)
-Lemma qmark_statement_refuted_l :
+(* f2(x)?; as a statement (former witness of the swallowed Err, repaired by /repo d2267e2): the Err leaves f1 *)
+Lemma qmark_statement_example_l :
   let p := mkQ KResult [mkL QStmt (PInt 1); mkL QDecl (PStr (s2l "e2"))] (PInt 5) 2 in
-  m_run_q p = mkR [EEnter 1; EEnter 2; EPost 1 VNo; EArm 0 (VInt 100); EAfter] XOk /\
-  s_run_q p = mkR [EEnter 1; EEnter 2; EArm 1 (VStr (s2l "e2")); EAfter] XOk.
+  m_run_q p = mkR [EEnter 1; EEnter 2; EArm 1 (VStr (s2l "e2")); EAfter] XOk /\ s_run_q p = m_run_q p.
 Proof. vm_compute. split; reflexivity. Qed.
 
 (* string v = f2(x)?; with f2 returning Ok("abc"): ? reads the integer channel only; the initialiser runs twice *)
